@@ -55,6 +55,12 @@ def pScenario : P Scenario := do
   -- entry point (0 Start, 1 StartTLS, 2 StartMTLS): the three share the model
   lit "P"
   let _proto ← nat
+  -- particular configurations the model does not distinguish: SIGHUP during the shutdown sequence (the
+  -- process must survive it), metrics over OTLP to a dead collector (no metrics port), slow metrics events
+  lit "X"
+  let _lateHup ← nat
+  let _metDead ← bool
+  let _metRace ← bool
   let m ← bool
   let t ← bool
   let l ← pListen
@@ -96,6 +102,7 @@ def pRes : P Res := do
   | 3 => pure .errDrain
   | 4 => pure .errObs
   | 5 => pure .other
+  | 7 => pure .killed
   | 8 => pure .hang
   | 9 => pure .panic
   | _ => failure
@@ -152,7 +159,7 @@ def showEv : Ev → String
 
 def showRes : Res → String
   | .ok => "0" | .errStartup => "1" | .errListen => "2" | .errDrain => "3" | .errObs => "4"
-  | .other => "5" | .hang => "8" | .panic => "9"
+  | .other => "5" | .killed => "7" | .hang => "8" | .panic => "9"
 
 def showReqRes : ReqRes → String
   | .incomplete => "0" | .complete => "1" | .na => "2"
